@@ -146,8 +146,19 @@ def run(ck):
                 ck.search_case("lookup-exact", len(qs))
                 if st4 == "ok":
                     # which names exist where, at the time of each lookup: count bearers among files requested so far
+                    # types of equal true name are identified when files are merged and the winning record keeps *its* names: the names of
+                    # such types are not judged here (they are C13's business)
+                    seen_true = {}
+                    for fi, (_, d) in enumerate(files):
+                        for _, r in d["type"]:
+                            seen_true.setdefault(r["_true_name"], set()).add(fi)
+                    shared = set(t for t, fs in seen_true.items() if len(fs) > 1)
+                    tainted = dict((mem, set(r[mem] for _, d in files for _, r in d["type"] if r["_true_name"] in shared)) for mem in ("_name", "_scoped_name", "_true_name"))
                     for (pos, lk, nm, ans), got in zip(qs, a4[len(files) + 2:]):
                         kind, member = LKS[lk]
+                        if kind == "type" and (nm in tainted[member] or (got != "-" and bytes.fromhex(got) in tainted[member])):
+                            ck.extra["lookups_on_merged_types_not_judged"] = ck.extra.get("lookups_on_merged_types_not_judged", 0) + 1
+                            continue
                         nreq = sum(1 for o in ops[:pos + 1] if o.startswith("reqfile"))
                         bearers = sum(1 for _, d in files[:nreq] for _, r in d[kind] if r[member] == nm)
                         if ans != "0" and got != dbgen.hexs(nm):
